@@ -43,6 +43,31 @@ impl Introspect for Node {
     }
 }
 
+/// a type that relies on the DEFAULT `introspect_len` of the trait
+struct Plain(usize);
+struct PlainItem(String);
+impl<'a> IntrospectItem<'a> for PlainItem {
+    fn key(&self) -> &str {
+        &self.0
+    }
+    fn val(&self) -> &dyn Introspect {
+        &LEAF
+    }
+}
+static LEAF: Plain = Plain(0);
+impl Introspect for Plain {
+    fn introspect_value(&self) -> String {
+        "plain".into()
+    }
+    fn introspect_child<'a>(&'a self, index: usize) -> Option<Box<dyn IntrospectItem<'a> + 'a>> {
+        if index < self.0 {
+            Some(Box::new(PlainItem(index.to_string())))
+        } else {
+            None
+        }
+    }
+}
+
 fn command(c: &Value) -> IntrospectorNavCommand {
     match c["k"].as_str().unwrap() {
         "expand" => IntrospectorNavCommand::ExpandElement(IntrospectedElementKey {
@@ -163,6 +188,41 @@ fn replay(rec: &Value) -> Vec<Value> {
 
 fn main() {
     let args: Vec<String> = std::env::args().collect();
+    if args.len() >= 3 && args[1] == "lens" {
+        // the default introspect_len, and arrays, at sizes around powers of two and the 10000 probe limit
+        let mut out = BufWriter::new(std::fs::File::create(&args[2]).expect("out"));
+        for k in [0usize, 1, 2, 3, 255, 256, 257, 1000, 4095, 4096, 4097, 8191, 8192, 8193, 9000, 9999, 10000] {
+            let n = Plain(k);
+            let len = n.introspect_len();
+            let mut fails = vec![];
+            if len != k {
+                fails.push(json!({"check": "c17.len.default", "detail": format!("default introspect_len() = {} for a value with {} children", len, k)}));
+            }
+            writeln!(out, "{}", json!({"k": k, "fails": fails})).unwrap();
+        }
+        fn arr<const N: usize>(out: &mut impl Write) {
+            let a = [0u8; N];
+            let len = a.introspect_len();
+            let mut n = 0;
+            while a.introspect_child(n).is_some() {
+                n += 1;
+            }
+            let mut fails = vec![];
+            if len != n {
+                fails.push(json!({"check": "c17.len.array", "detail": format!("[u8; {}]: introspect_len() = {} but {} children can be fetched", N, len, n)}));
+            }
+            writeln!(out, "{}", json!({"k": N, "fails": fails})).unwrap();
+        }
+        arr::<0>(&mut out);
+        arr::<1>(&mut out);
+        arr::<256>(&mut out);
+        arr::<8192>(&mut out);
+        arr::<9000>(&mut out);
+        arr::<10000>(&mut out);
+        arr::<10001>(&mut out);
+        arr::<20000>(&mut out);
+        return;
+    }
     if args.len() < 4 || args[1] != "replay" {
         eprintln!("usage: intro replay <records> <out>");
         std::process::exit(2);
